@@ -663,6 +663,12 @@ Proof.
   - apply Qle_shift_div_r; [exact PN|]. change 100%Q with (inject_Z 100). rewrite <- inject_Z_mult, <- Zle_Qle. lia.
 Qed.
 
+Lemma cov_batch_full syms col : col <> [] ->
+  (cov_batch syms col * inject_Z (Z.of_nat (length col)) ==
+   inject_Z (100 * (Z.of_nat (length col) - missing_cells syms col)))%Q /\
+  (0 <= cov_batch syms col <= 100)%Q.
+Proof. intro H. split; [exact (cov_batch_spec syms col H)|exact (cov_batch_range syms col H)]. Qed.
+
 (* nearest integer, ties to even: |x - r| <= 1/2, and r is even at a tie *)
 Lemma rhe_spec (n : Z) (d : positive) :
   let r := round_half_even (n # d) in
